@@ -36,6 +36,13 @@ def atom_interval(a, ranges):
         return v, v
     if a.kind == 'base':
         return interval(a.args[0], ranges)
+    if a.kind == 'norm':
+        v = T.A(a.args[0])
+        key = f'|{v.name}|'
+        if v.kind == 'vsym' and key in ranges:
+            lo, hi = ranges[key]
+            return math.log10(lo), math.log10(hi)
+        raise Unbounded(f'no range for the length of {v.name}')
     if a.kind == 'fn' and a.name == 'abs' and isinstance(a.args[0], Rat):
         return interval(a.args[0], ranges)
     raise Unbounded(f'atom {T.show_atom(a)}')
